@@ -37,11 +37,18 @@ RuleSeqs(ntseq, rhsU, split, from) ==
            rest == RuleSeqs(ntseq, rhsU, split, from + 1)
        IN { a \o b : a \in mine, b \in rest }
 
+\* union of a sequence of sets as a fold of binary unions: TLC's UNION tests every element against an unsorted vector
+\* (quadratic - 12 383 grammars took 14 s PER WORKER at start-up), a binary union is sorted once
+RECURSIVE CupAll(_)
+CupAll(sets) == IF sets = <<>> THEN {}
+                ELSE LET h == Head(sets) IN IF Cardinality(h) >= 0 THEN h \cup CupAll(Tail(sets)) ELSE {}   \* Cardinality sorts h, so membership in it is a binary search
+
 U(ntseq, ts, maxRules, maxRhs) ==
   LET nts == { ntseq[i] : i \in DOMAIN ntseq }
       rhsU == SeqsUpTo(nts \cup ts, maxRhs)
       splits == { s \in Splits(Len(ntseq), maxRules) : \E i \in DOMAIN s : s[i] > 0 }
-  IN UNION { { [nts |-> nts, ts |-> ts, start |-> ntseq[1], rules |-> rs] : rs \in RuleSeqs(ntseq, rhsU, s, 1) } : s \in splits }
+      splitSeq == SetAsSeq(splits)
+  IN CupAll([k \in DOMAIN splitSeq |-> { [nts |-> nts, ts |-> ts, start |-> ntseq[1], rules |-> rs] : rs \in RuleSeqs(ntseq, rhsU, splitSeq[k], 1) }])
 
 \* the quick universe: 2 nonterminals, 2 terminals, <= 3 rules, |rhs| <= 2  (12 383 grammars)
 U2 == U(<<"S", "A">>, {"$X", "$Y"}, 3, 2)
